@@ -605,6 +605,29 @@ fn judge_image(out: &mut CaseOut, base: &Base, image: &Image, damaged: &PathBuf,
             }
         }
     }
+    // A scan that ends with an error has failed as a whole - but what it handed out before it said
+    // so has been served as data: every entry yielded must be the true entry of its key (for WAL
+    // damage: a value that was written for it), in order, both directions. Omissions are what the
+    // error stands for; an overwritten value or a deleted key is not.
+    if !wal_damage {
+        for backward in [false, true] {
+            if let Ok((entries, Some(_err))) = sess.scan_keeping_partial(None, backward) {
+                out.add("scans_that_ended_with_an_error", 1);
+                out.add("entries_yielded_before_the_error", entries.len() as u64);
+                let wrong: Vec<String> = entries.iter().filter(|(k, v)| base.truth.get(k) != Some(v)).take(5)
+                    .map(|(k, v)| format!("{}={} (true: {})", show(k), show(&v[..v.len().min(12)]), base.truth.get(k).map_or("<absent>".to_string(), |t| show(&t[..t.len().min(12)])))).collect();
+                let ordered = entries.windows(2).all(|w| if backward { w[0].0 > w[1].0 } else { w[0].0 < w[1].0 });
+                if !wrong.is_empty() || !ordered {
+                    let kind = if !ordered { "out-of-order" } else if entries.iter().any(|(k, _)| !base.truth.contains_key(k)) { "deleted-key-resurrected" } else { "stale-value-served" };
+                    out.violate(
+                        format!("C15/wrong-data-served/{}scan-yielded-before-reporting-its-error/{kind}/{sig_loc}", if backward { "backward-" } else { "" }),
+                        json!({"ctx": ctx, "entries_yielded": entries.len(), "wrong": wrong}),
+                    );
+                    break;
+                }
+            }
+        }
+    }
     // backward scan: same oracle (entries returned in descending order)
     match sess.scan_back(None) {
         Err(_) => any_read_error = true,
